@@ -35,6 +35,7 @@ func runC28(p *Prog, r *Result) {
 	r.Rule("R28a", "type assertions without comma-ok are dominated by a test of the same value, or backed by a checked construction invariant", 4)
 	r.Rule("R28b", "explicit panics: exhaustive-switch defaults, infallible-call wrappers and an explicit table of configuration preconditions", 20)
 	r.Rule("R28c", "integers from the program reach indexes, slice bounds, make sizes and repeat counts only under a lower and an upper guard", 6)
+	r.Rule("R28e", "shifts by a signed, non-constant count and integer divisions by a non-constant divisor are dominated by the test that rules out the panicking value", 4)
 	r.Rule("R28d", "indexes taken from state that survives a call are guarded against the length of what they index", 2)
 
 	g := buildRefGraph(p)
@@ -72,6 +73,7 @@ func runC28(p *Prog, r *Result) {
 			checkPanicsC28(p, r, g, pkg, rel, fd)
 			checkTaintedInts(p, r, pkg, rel, fd)
 			checkStateIndexes(p, r, pkg, rel, fd)
+			checkShiftsAndDivisions(p, r, pkg, rel, fd)
 		}
 	}
 }
@@ -1892,7 +1894,97 @@ func checkStateIndexes(p *Prog, r *Result, pkg *packages.Package, rel string, fd
 	})
 }
 
+// ---------------------------------------------------------------- R28e
+
+func checkShiftsAndDivisions(p *Prog, r *Result, pkg *packages.Package, rel string, fd *ast.FuncDecl) {
+	info := pkg.TypesInfo
+	var g *FGraph
+	type site struct {
+		n     ast.Node
+		opnd  ast.Expr
+		shift bool
+		text  string
+	}
+	var sites []site
+	isSignedVar := func(e ast.Expr) bool {
+		if tv := info.Types[e]; tv.Value != nil {
+			return false
+		}
+		b, ok := info.TypeOf(e).Underlying().(*types.Basic)
+		return ok && b.Info()&types.IsInteger != 0 && b.Info()&types.IsUnsigned == 0
+	}
+	isIntVar := func(e ast.Expr) bool {
+		if tv := info.Types[e]; tv.Value != nil {
+			return false
+		}
+		b, ok := info.TypeOf(e).Underlying().(*types.Basic)
+		return ok && b.Info()&types.IsInteger != 0
+	}
+	ast.Inspect(fd.Body, func(n ast.Node) bool {
+		switch x := n.(type) {
+		case *ast.BinaryExpr:
+			switch x.Op {
+			case token.SHL, token.SHR:
+				if isSignedVar(x.Y) {
+					sites = append(sites, site{x, x.Y, true, exprString(x)})
+				}
+			case token.QUO, token.REM:
+				if isIntVar(x.Y) && isIntVar(x.X) || (isIntVar(x.Y) && info.Types[x.X].Value != nil) {
+					sites = append(sites, site{x, x.Y, false, exprString(x)})
+				}
+			}
+		case *ast.AssignStmt:
+			switch x.Tok {
+			case token.SHL_ASSIGN, token.SHR_ASSIGN:
+				if isSignedVar(x.Rhs[0]) {
+					sites = append(sites, site{x, x.Rhs[0], true, exprString(x.Lhs[0]) + " " + x.Tok.String() + " " + exprString(x.Rhs[0])})
+				}
+			case token.QUO_ASSIGN, token.REM_ASSIGN:
+				if isIntVar(x.Rhs[0]) {
+					sites = append(sites, site{x, x.Rhs[0], false, exprString(x.Lhs[0]) + " " + x.Tok.String() + " " + exprString(x.Rhs[0])})
+				}
+			}
+		}
+		return true
+	})
+	for _, s := range sites {
+		if g == nil {
+			g = NewFGraph(info, fd.Body, nil)
+		}
+		key := fmt.Sprintf("%s#%s", relKey(rel, fd), s.text)
+		blk, _ := g.BlockOf(s.n)
+		id, isID := ast.Unparen(s.opnd).(*ast.Ident)
+		if blk == nil || !isID {
+			r.Undecided("R28e", key, s.n.Pos(), "operand is not a plain variable or the site is not in the flow graph")
+			continue
+		}
+		o := info.ObjectOf(id)
+		var ok bool
+		if s.shift {
+			ok = underEdges(g, blk, func(e *FEdge) bool { k := boundsKind(info, e, o); return k == "lower" || k == "both" })
+			r.Check(ok, "R28e", key, s.n.Pos(), "the count is tested to be non-negative first",
+				"shifts by a signed count the program controls without first ruling out negative values: Go panics with `negative shift amount`")
+			continue
+		}
+		ok = underEdges(g, blk, func(e *FEdge) bool {
+			be, isBin := e.Cond.(*ast.BinaryExpr)
+			if !isBin || exprString(be.Y) != "0" {
+				return false
+			}
+			bid, isB := ast.Unparen(be.X).(*ast.Ident)
+			if !isB || info.ObjectOf(bid) != o {
+				return false
+			}
+			return (be.Op == token.EQL && !e.Pol) || (be.Op == token.NEQ && e.Pol) || (be.Op == token.GTR && e.Pol) || (be.Op == token.LEQ && !e.Pol)
+		})
+		r.Check(ok, "R28e", key, s.n.Pos(), "the divisor is tested against zero first",
+			"divides by a value the program controls without first testing it against zero: Go panics with `integer divide by zero`")
+	}
+}
+
 var c28Controls = []Control{
+	{Name: "signed-shift-count", Rule: "R28e", WantKey: "binArit#x << y", File: "expand/arith.go",
+		Mutate: ctlReplace("binArit", "x << uint(y)", "x << y", 0)},
 	{Name: "shift-accepts-negative-count", Rule: "R28c", WantKey: "builtin#slice r.Params", File: "interp/builtin.go",
 		Mutate: ctlReplace("Runner.builtin", "err == nil && n2 >= 0", "err == nil", 0)},
 	{Name: "classic-test-complex-left-operand", Rule: "R28a", WantKey: "bashTest#x.X", File: "interp/test_classic.go",
